@@ -96,6 +96,38 @@ Theorem launch_all_done_counter_zero :
 Proof. exact spawn_all_done_zero. Qed.
 Print Assumptions launch_all_done_counter_zero.
 
+(* DoTimes / Operation.StartGroup (the loop `for i := 0; i < n; i++ { wg.Launch(ctx, op) }`, any n : Z): after
+   DoTimes n the counter has grown by exactly max 0 n, exactly that many new goroutines are counted, the other users'
+   share is untouched, the result is again a reachable state (so the steps of the started goroutines may interleave
+   in any way), and every goroutine that is live in it is covered (counter positive: Wait does not return). *)
+Theorem dotimes_accounts_exactly :
+  forall (n : Z) (s s' : spawn_state),
+    spawn_reach s -> spawn_dotimes n s s' ->
+    spawn_reach s' /\
+    sp_counter s' = sp_counter s + Z.max 0 n /\
+    sp_ext s' = sp_ext s /\
+    sp_jobs s' = sp_jobs s ++ repeat JCounted (Z.to_nat n) /\
+    (forall i j, nth_error (sp_jobs s') i = Some j -> j_live j = true -> 0 < sp_counter s').
+Proof. exact dotimes_accounts_exactly_lemma. Qed.
+Print Assumptions dotimes_accounts_exactly.
+
+(* a non-positive count is a no-op (it neither panics nor changes the counter), and the loop can always run *)
+Theorem dotimes_nonpositive_is_noop :
+  forall (n : Z) (s s' : spawn_state), n <= 0 -> spawn_dotimes n s s' -> s' = s.
+Proof. exact dotimes_nonpositive_noop. Qed.
+Print Assumptions dotimes_nonpositive_is_noop.
+
+Theorem dotimes_never_panics :
+  forall (k : nat) (s : spawn_state), spawn_reach s -> exists s', launch_times k s s'.
+Proof. exact launch_times_total. Qed.
+Print Assumptions dotimes_never_panics.
+
+(* the executable form compared with the implementation on every run *)
+Theorem dotimes_counter_is_max :
+  forall n c : Z, 0 <= c -> dotimes_counter n c = c + Z.max 0 n.
+Proof. exact dotimes_counter_spec. Qed.
+Print Assumptions dotimes_counter_is_max.
+
 (* Wait returns once its context is cancelled: in every reachable state, a waiter that is parked although its
    context has ended has its helper's Broadcast pending (it will be taken off the wait list, re-check and return
    RCancelled) — for ALL schedules, contexts ending at any point. *)
